@@ -25,6 +25,11 @@ for d in sorted(glob.glob('/verif/seeded/C*/*')):
     elif os.path.exists(os.path.join(d, 'meta.json')):
         desc = json.load(open(os.path.join(d, 'meta.json'))).get('description_by_author', '')
     first = desc.split('\n')[0]
+    if first.startswith('Clause broken'):
+        for l in desc.split('\n'):
+            if l.startswith('Change:'):
+                first = l[len('Change:'):].strip()
+                break
     first = re.sub(r'^C\d\d m\d\s*[-–:]\s*', '', first)[:230]
     rc, classes = ev.get((pid, name), (None, ''))
     if name.startswith('w'):
